@@ -53,7 +53,7 @@ for i, n, ulen, ulen2 in shapes:
     g = {"vfShape": {"all": [i]}, "vfLen": lens(ulen, [1], [0, 1, 2]), "vfLen2": lens(ulen2, [2], [0, 2, 3])}
     c06["units"].append(unit("H06-enc-" + n, "Marshal by value and by pointer: no panic, same bytes (shape %s)" % n, "vfH_c06_enc", g, ["done"], split={"all": 6}))
 c06["units"].append(unit("H06-direct", "pointer-shaped values passed by value ([1]*T, struct{*T}, map, nested)", "vfH_c06_direct", {"vfMode": {"all": "0..6"}}, ["done"]))
-c06["units"].append(unit("H06-cycle", "self-referential values through pointer, slice and map", "vfH_c06_cycle", {"vfMode": {"all": [0, 1, 2]}}, [], hang_is_violation=True, maxsteps=50000000))
+c06["units"].append(unit("H06-cycle", "self-referential values: pointer cycles through struct fields, map values and slice elements must be errors; slice/map/interface self-containment (known finding)", "vfH_c06_cycle", {"vfMode": {"all": "0..5"}}, [], hang_is_violation=True, maxsteps=50000000, maxdepth=40000))
 c06["units"].append(unit("H06-dec", "every byte string of the length into 16 targets (five specialised maps, named map type, structs with embedded pointer / ,string / slices / pointers, slices of structs, interfaces, arrays of slices, pointer to struct, Number+RawMessage)", "vfH_c06_dec",
                          {"vfMode": {"all": "0..15"}, "vfLen": {"quick": "0..3", "thorough": "0..4"}}, ["rejected"], warm="vfWarm_c06", split={"all": 4}))
 c06["units"].append(unit("H06-trunc", "a valid document per target cut at every offset and with one arbitrary byte at an arbitrary position (Unmarshal; thorough also Parse with ZeroCopy)", "vfH_c06_trunc",
